@@ -498,3 +498,19 @@ Example overlapping_tiles : tiles_to_eids [mkt 1 0 1 25 0; mkt 1 0 1 25 1; mkt 1
 Proof. vm_compute. reflexivity. Qed.
 Example spatial_variant_example : tiles_to_sids [mkt 2 1 3 25 4] 25 0 3 = Ok ["3/0/2/6"; "3/0/2/7"; "3/0/3/6"; "3/0/3/7"]%string.
 Proof. vm_compute. reflexivity. Qed.
+(* a range that starts on a legal index and runs past the top of the target zoom is an error *)
+Example range_past_the_top_is_an_error :
+  key2z (2 ^ 24 - 1) 24 25 25 (-1) = Err /\ tiles_to_eids [mkt 20 85263 65423 23 0; mkt 20 85263 65423 24 (2 ^ 24 - 1)] 25 (-1) 25 = Err.
+Proof. vm_compute. split; reflexivity. Qed.
+(* output vertical zoom 0 with hZoom 3: the expansion raises the vertical axis to zoom 3 *)
+Example output_zoom_0 : tiles_to_sids [mkt 3 5 2 3 3] 3 2 0 =
+  Ok ["3/0/5/2"; "3/1/5/2"; "3/2/5/2"; "3/3/5/2"; "3/4/5/2"; "3/5/5/2"; "3/6/5/2"; "3/7/5/2"]%string.
+Proof. vm_compute. reflexivity. Qed.
+(* the hypotheses of the cover theorem are satisfiable: the point (u, w, altitude 2.5 m) of tile (1, 0, 1, 25, 2) with E = 25, O = 0 *)
+Example cover_hypotheses_satisfiable : inT 25 0 (mkt 1 0 1 25 2) (0.25, 0.75, 2.5 * / 33554432)%R.
+Proof.
+  unfold inT, tile_scale, key_scale, in_cell, cell_hi, cell_lo, metres. cbn [th tx ty tv tz sz se so].
+  replace (bpow radix2 1) with 2%R by (cbn; lra). replace (bpow radix2 (25 - 25)) with 1%R by reflexivity.
+  replace (bpow radix2 zorigin) with 33554432%R by (unfold zorigin; cbn; lra).
+  split; [apply Zfloor_imp; cbn; lra|]. split; [apply Zfloor_imp; cbn; lra|]. cbn. lra.
+Qed.
